@@ -391,6 +391,32 @@ class Tables:
                     r = self.run_key("adopt", key, args, pre, phase=ph, objs={1: {"colour": pc, "nt": pnt}})
                     r.ret_write = ret_write
                     yield r
+            # adoption paths nobody listed: every other safe function of lock.rs that mutates the wrapped cell of a
+            # Gc'd lock behind a barrier of its own (a new setter, a swap) is interpreted the same way, with its
+            # arguments built from its signature - each Gc argument an object of every colour, since each of them may
+            # come to hold what the other held
+            for (label, key, kinds) in self.discovered_adopt():
+                others = [(c_, n_) for c_ in COL for n_ in (1, 0)] if kinds.count("gc") > 1 else [None]
+                for ph, pc, pnt, oth in itertools.product(PH, COL, (0, 1), others):
+                    pre = {"path": label, "phase": ph, "P": pc, "Pnt": pnt, "discovered": 1}
+                    objs = {1: {"colour": pc, "nt": pnt}}
+                    if oth:
+                        pre["O"], pre["Ont"] = oth
+                        objs[2] = {"colour": oth[0], "nt": oth[1]}
+                    args, k = [], 0
+                    for kd in kinds:
+                        if kd == "gc":
+                            k += 1
+                            args.append(gc(min(k, 2)))
+                        elif kd == "mc":
+                            args.append(self.cx())
+                        elif kd == "closure":
+                            args.append(adt("closure:<user>", 0, ()))
+                        else:
+                            args.append(TOP)
+                    r = self.run_key("adopt", key, args, pre, phase=ph, objs=objs)
+                    r.ret_write = False
+                    yield r
             # DynamicRootSet::stash(&self, mc, root)
             key = self._seed_key("dynamic_roots::DynamicRootSet::stash")
             for ph, pc, cc, cnt in itertools.product(PH, COL, COL, (1, 0)):
@@ -411,6 +437,49 @@ class Tables:
         finally:
             self.m.ip.lenient_std = False
             del self.m.ip.prims["dynamic_roots::Slots::add"]
+
+    def discovered_adopt(self):
+        """[(label, body key, argument kinds)]: safe functions of lock.rs taking a Gc by value that mutate the wrapped cell
+        through a shared reference and are none of the tabled setters (found the way C13's R13.5 finds lock mutators)."""
+        from gcv.props import C13 as c13
+        prog = self.prog
+        prog.edges()
+        tabled = {a[1] for a in self.ADOPT}
+        out = []
+        for f in prog.f["fns"]:
+            if f["kind"] not in ("Fn", "AssocFn") or not f["span"]["f"].endswith("lock.rs") or f.get("unsafe") or f["n"] in tabled:
+                continue
+            ins = f.get("inputs") or []
+            if not ins:
+                continue
+            t0 = prog.ty(ins[0]["ty"])
+            if not (t0.get("k") == "adt" and t0.get("def") == "gc::Gc"):
+                continue
+
+            def is_mut(c):
+                if c in c13.CELL_MUTATORS:
+                    return True
+                return bool(c) and c.startswith(("core::cell::Cell::", "core::cell::RefCell::", "core::cell::once::OnceCell::")) \
+                    and c not in c13.CELL_READERS
+            reach = prog.reachable_from([f["n"]])
+            if not any(is_mut(c) for c in reach if c):
+                continue
+            kinds = []
+            for i in ins:
+                t = prog.ty(i["ty"])
+                if t.get("k") == "adt" and t.get("def") == "gc::Gc":
+                    kinds.append("gc")
+                elif t.get("k") == "ref" and prog.ty(t["ty"]).get("def") == "context::Mutation":
+                    kinds.append("mc")
+                elif t.get("k") == "param" and any(p["s"].startswith(t["s"] + ": Fn") for p in f.get("predicates", [])):
+                    kinds.append("closure")
+                else:
+                    kinds.append("val")
+            for key in prog.seed_n.get(f["n"], []):
+                if prog.bodies[key]["def"] == f["path"]:
+                    out.append(("%s (not a tabled setter)" % f["path"], key, kinds))
+                    break
+        return out
 
     def run_key(self, prim, key, args, pre, mem=None, **state):
         st = self.m.mk_state(**state)
